@@ -10,7 +10,7 @@ CONSTANTS
   Window = 2
   GCLag = 0
   CheckStay = TRUE
-  Deviation = "SignerRecordNotRefreshed"
-  GCMode = "strict"
+  Deviation = "none"
+  GCMode = "lenient"
 INVARIANTS InvSound InvAdmits InvStay InvProp
 CHECK_DEADLOCK FALSE
